@@ -130,6 +130,16 @@ def runner(rep, tier, seed, replay):
         raise ToolError("reference composition re-reads produced text:\n" + r.violation[:1500])
     check_action_coverage(r, ["Finish"])
     rep.add_tlc(r)
+    # the expansion as a sequence of passes over the same tokens (spec/Passes.tla): with produced text masked for the later passes no
+    # hidden command runs and every word count is the reference's; "rescan" (the code as pinned) is the negative control
+    rm = run_tlc("Passes", "Passes_masked", coverage=False)
+    if rm.violation:
+        raise ToolError("the masked pass pipeline violates NoHiddenCommand / Exact:\n" + rm.violation[:1500])
+    rep.add_tlc(rm)
+    rr = run_tlc("Passes", "Passes_rescan", coverage=False)
+    rep.add_tlc(rr)
+    if not rr.violation or "NoHiddenCommand" not in rr.violation:
+        raise ToolError("negative control failed: passes that re-read produced text never run a hidden command")
     extra = []
     for c in cases:
         if c["del"] in ("var", "bvar", "dsub", "bqsub") and c["pos"] != "last" and chars(c["pay"]) in ("<", "<<<", "<f", "a>b", "|", ">"):
